@@ -104,10 +104,10 @@ func init() { register("C03", checkC03) }
 
 func checkC03(tier string) *Report {
 	rep := NewReport("C03", tier, "fault_enumeration")
-	rep.Rule = "for each payload shape the fault-free run lists the fallible call sites reached; every plan with one fault and every plan with two faults (i<j) is executed to completion on a fresh branch; the wrapped ICS-20 app has 4 fault modes. Non-trivial = a plan whose fault was actually reached. Natural failures: every (state, env-caused failing transfer) on the full app."
+	rep.Rule = "for each payload shape the fault-free run lists the fallible call sites reached; every plan with one fault and every plan with two faults (i<j) is executed to completion on a fresh branch; the wrapped ICS-20 app has 4 fault modes. Non-trivial = a plan whose fault was actually reached. Natural failures: every (state, env-caused failing transfer) on the full app. Real envelope: one block history (menu of routes x fee shapes x amounts x malformed/raw packets, in 5 environments reached by real transactions), every step through baseapp + IBC core and compared with its emulation."
 	rep.Assumptions = []string{
 		"INSTRUMENTED stand: a second orbiter keeper over the same store with decorated dependencies; only the wiring of depinject.go is replicated (conformance with the app's own stack is checked fault-free: identical acks and store hashes)",
-		"IBC core discard-on-error emulated (DESIGN §1.3.1)",
+		"IBC core discard-on-error is emulated in the fault-plan and natural-failure phases (DESIGN §1.3.1); the emulation is itself validated in the last phase, where the same packets go through IBC core's own RecvPacket/Acknowledgement handlers (09-localhost client, signed transactions, FinalizeBlock+Commit) and must give the same acknowledgement and stores, and every error acknowledgement relayed back must restore the complete ledger",
 		"a fault = the decorated call returns an error without side effects (or, for the wrapped ICS-20 app: error ack / success without credit / credits 1 less / credits 1 more)",
 	}
 	full := tier == "thorough"
@@ -337,6 +337,15 @@ func checkC03(tier string) *Report {
 	// ---------------- natural failures on the FULL application
 	c03Natural(rep, worlds, full)
 	rep.Guard(rep.Outcomes["error-ack"] > 100, "too few error acks: %v", rep.Outcomes)
+
+	// ---------------- the REAL envelopes (loop.go): signed transactions through baseapp, packets through IBC core's own
+	// RecvPacket / Acknowledgement over the localhost client; all-or-nothing is observed where IBC itself discards and
+	// refunds, and each step is compared with the emulated envelope on a branch of the same state
+	if _, err := loopRun(rep, full); err != nil {
+		rep.HarnessError("real-envelope history: %v", err)
+	}
+	rep.Guard(rep.Counters["loop_refunds_verified"] >= 100 && rep.Outcomes["real-success-ack"] >= 30,
+		"real-envelope history too thin: refunds=%d successes=%d", rep.Counters["loop_refunds_verified"], rep.Outcomes["real-success-ack"])
 	return rep
 }
 
